@@ -797,11 +797,8 @@ func runReplays(t *testing.T, rec *ev.Rec) {
 		case v.inconcl != "":
 			rec.Inconcl(v.inconcl)
 		case v.sig != "":
-			sig := rf.Sig
-			if sig == "" {
-				sig = v.sig
-			}
-			if !rec.Violation(sig, "replay "+rf.Path+": "+v.what, &c) {
+			// the signature of what fails NOW (a stored case may fail differently on another tree)
+			if !rec.Violation(v.sig, "replay "+rf.Path+": "+v.what, &c) {
 				t.Errorf("replay %s: %s", rf.Path, v.what)
 			}
 		default:
